@@ -377,6 +377,28 @@ func reachingStoreVals(ld *ssa.UnOp) (vals []ssa.Value, ok bool) {
 	return vals, ok
 }
 
+// storedJustBefore: v is a load from an address (a captured variable, a field) that was stored to earlier in the same
+// block with no call and no other store to that address in between: the value stored. Otherwise nil.
+func storedJustBefore(v ssa.Value) ssa.Value {
+	ld, ok := strip(v).(*ssa.UnOp)
+	if !ok || ld.Op != token.MUL || ld.Block() == nil {
+		return nil
+	}
+	blk := ld.Block()
+	idx := instrIndex(ld)
+	for i := idx - 1; i >= 0; i-- {
+		switch x := blk.Instrs[i].(type) {
+		case *ssa.Store:
+			if x.Addr == ld.X {
+				return x.Val
+			}
+		case ssa.CallInstruction:
+			return nil
+		}
+	}
+	return nil
+}
+
 // holdsValue: v is target itself, or a load of a local variable that was assigned target with no other assignment to the
 // variable on any path from that assignment to the load.
 func holdsValue(v, target ssa.Value) bool {
@@ -684,9 +706,17 @@ func resolve(v ssa.Value) ssa.Value {
 			}
 			if _, isField := x.X.(*ssa.FieldAddr); isField {
 				// field of a local struct / parameter struct with exactly one origin
-				if os, ok := fieldOrigins(x, 0); ok && len(os) == 1 {
-					v = os[0].V
-					continue
+				if os, ok := fieldOrigins(x, 0); ok && len(os) >= 1 {
+					same := true
+					for _, o := range os[1:] {
+						if o.V != os[0].V {
+							same = false
+						}
+					}
+					if same {
+						v = os[0].V
+						continue
+					}
 				}
 				return v
 			}
@@ -706,6 +736,21 @@ func resolve(v ssa.Value) ssa.Value {
 				return v
 			}
 			v = b
+		case *ssa.Field:
+			// field of a struct passed by value (a by-value receiver) with exactly one origin
+			if os, ok := fieldOrigins(x, 0); ok && len(os) >= 1 {
+				same := true
+				for _, o := range os[1:] {
+					if o.V != os[0].V {
+						same = false
+					}
+				}
+				if same {
+					v = os[0].V
+					continue
+				}
+			}
+			return v
 		default:
 			return v
 		}
@@ -986,6 +1031,32 @@ func (p *Prog) argValues(f *ssa.Function, i int) []ssa.Value {
 		}
 	}
 	return out
+}
+
+// deadFunction: an unexported top-level function of the module that nothing calls or mentions in the non-test build (a
+// wrapper kept for the tests' sake): what flows into its parameters is nothing.
+func (p *Prog) deadFunction(f *ssa.Function) bool {
+	if f == nil || f.Parent() != nil || f.Signature.Recv() != nil || !p.InModule(f) {
+		return false
+	}
+	if o := f.Object(); o == nil || o.Exported() || f.Name() == "init" || f.Name() == "main" {
+		return false
+	}
+	if p.mentioned == nil {
+		p.mentioned = map[*ssa.Function]bool{}
+		for _, g := range p.Fns {
+			for _, b := range g.Blocks {
+				for _, in := range b.Instrs {
+					for _, op := range in.Operands(nil) {
+						if h, ok := (*op).(*ssa.Function); ok {
+							p.mentioned[h] = true
+						}
+					}
+				}
+			}
+		}
+	}
+	return !p.mentioned[f] && len(p.callers[f]) == 0
 }
 
 // fieldLoad recognises a load of struct field `name` (via FieldAddr+load or Field) and returns the base.
